@@ -138,6 +138,13 @@ def _ctor_job(job):
             cells.append(obj.frame.as_integer * 64 + rt_bits(obj))
         except Exception:
             cells.append(obj.frame.as_integer * 64)
+        if dest and dest[0] == "int":
+            # what an application stepping a kept address object through the bus does: the address object of a command
+            # built from a bare integer is re-targeted afterwards -- later commands built from that integer are not its business
+            try:
+                obj.destination.address = (obj.destination.address + 37) % 64
+            except Exception:  # noqa: no such attribute on this kind of destination
+                pass
     return cells
 
 
